@@ -98,11 +98,11 @@ Brackets == { Multi(<<Nm(ka), Nm(kb)>>), Multi(<<Nm(kb), Nm(ka), Nm(ka)>>),
               Un(<<Star, Idx(0)>>), Un(<<Sl(0, TRUE, 0, TRUE, 1, TRUE)>>) }
 SigmaPairs == {Nm(ka), Nm(kb), Wild} \cup Brackets \cup {Flt(q) : q \in (IF DocSet = "small" THEN QueriesQ ELSE Queries \cup QueriesQ)}
 SigmaTriples == {Nm(ka), Nm(kb), Wild, Multi(<<Nm(ka), Nm(kb)>>), Multi(<<Wild, Wild>>), Multi(<<Wild, Nm(ka)>>),
-                 Un(<<Idx(0)>>), Un(<<Idx(1), Idx(0)>>), Un(<<Sl(0, TRUE, 0, TRUE, -1, FALSE)>>), Un(<<Star, Idx(0)>>)}
+                 Un(<<Idx(0)>>), Un(<<Idx(1), Idx(0)>>), Un(<<Sl(0, TRUE, 0, TRUE, -1, FALSE)>>), Un(<<Star, Idx(0)>>), Un(<<Sl(0, TRUE, 0, TRUE, 1, TRUE)>>)}
                 \cup {Flt(q) : q \in QueriesT}
 \* non-ASCII key for the spelling checks
 SigmaSpell == IF Spellings \in {"all", "all64"} THEN {Nm(kE), Multi(<<Nm(kE), Nm(ka)>>)} ELSE {}
-SigmaExtras == {Nm(ka), Nm(kb), Wild, Un(<<Idx(0)>>), Multi(<<Nm(ka), Nm(kb)>>)} \cup {Flt(q) : q \in QueriesX}
+SigmaExtras == {Nm(ka), Nm(kb), Wild, Un(<<Idx(0)>>), Multi(<<Nm(ka), Nm(kb)>>), Un(<<Sl(0, TRUE, 0, TRUE, 1, TRUE)>>)} \cup {Flt(q) : q \in QueriesX}
 Sigma == (IF Scope = "pairs" THEN SigmaPairs ELSE IF Scope = "extras" THEN SigmaExtras ELSE SigmaTriples) \cup SigmaSpell
 
 F1 == {FF(Fn_f1), FF(Fn_fodd), FF(Fn_ferr), AF(Fn_g1), AF(Fn_gerr)}
